@@ -290,6 +290,17 @@ def to_py(text_or_ast, names, macros=None):
                     else:
                         env[n] = saved[n]
                 return res
+            if f == "inc" and isinstance(e.args[0], ast.Name) and isinstance(env.get(e.args[0].id), (list, tuple)):
+                # same meaning as the quantified form below (adjacent pairs suffice by transitivity), linear time
+                seq, m_ = env[e.args[0].id], ev(e.args[1])
+                if m_ > len(seq):
+                    raise SpecError("clause reads %s[%d] outside its length %d" % (e.args[0].id, m_ - 1, len(seq)))
+                return all(seq[i_] < seq[i_ + 1] for i_ in range(m_ - 1))
+            if f == "mem" and isinstance(e.args[1], ast.Name) and isinstance(env.get(e.args[1].id), (list, tuple)):
+                seq, m_ = env[e.args[1].id], ev(e.args[2])
+                if m_ > len(seq):
+                    raise SpecError("clause reads %s[%d] outside its length %d" % (e.args[1].id, m_ - 1, len(seq)))
+                return ev(e.args[0]) in seq[:max(m_, 0)]
             if f == "inc":
                 a, m = e.args
                 return ev(parse("forall(i_, j_, 0, %s, %s[i_] < %s[j_])" % (ast.unparse(m), a.id, a.id)))
